@@ -7,6 +7,10 @@ hooks = subprocess.run(["git", "-C", "/repo", "log", "--format=%h %s"], capture_
 hook_commits = [l.split()[0] for l in hooks if "verif hooks" in l]
 
 CLAIMS = {
+ "C06": dict(
+   text="Coq theorems (Proofs/RBProofs.v, all Qed, closed under the global context) over the tree-bin model: TreeBin::new, find_or_put_tree_val, value replacement and remove_tree_node (CLR insertion and deletion fix-up, written over a zipper one case per branch of the Rust loops) preserve: search order by (hash,key), black root, no red-red, equal black height, and next-list = tree node set; tree lookup = list lookup; 2^height <= (n+1)^2 and 2^(key comparisons of a lookup) <= (n+1)^4, for all trees and keys. The model is tied to node.rs on every run by step-wise structural correspondence: the model operation applied to the implementation's dumped pre-state must reproduce the dumped post-state with identical shape, colours and list order (tree-heavy generator: ascending/descending/zig-zag/random fills and drains, colliding and same-bin hashes); pointer-level parent/prev links are re-derived from every dump; Eq/Ord calls of real lookups are counted against 4*log2(n+1).",
+   note="parent/prev pointer consistency is checked on dumps, not proved; the statement 'bins of >= 8 nodes in tables >= 64 are trees (or lists of <= 10 nodes right after growth)' is checked on every dump by the comparison counter, its proof over all sequences belongs to the sequential refinement",
+   tech="Coq proof (red-black invariants by induction over zipper paths) + step-wise structural differential against the implementation", ref="DESIGN.md 5/C06"),
  "C09": dict(
    text="Coq theorem over the API table regenerated from the source (every public guard-taking entry point of HashMap/HashSet and every facade method forwarding a with_guard guard starts with check_guard or only forwards the guard to such methods; finite table, vm_compute + forallb_forall), plus exhaustive dynamic validation: every entry point and guard position is called with a guard of a foreign collector on empty and populated collections (must panic before any protected load or retire through that guard, map unchanged).",
    note="trusted: the translator's reading of 'first statement is self.check_guard(g)' and of delegation; receiver/guard pairing of two-guard methods is validated dynamically only; seize's Collector::ptr_eq",
